@@ -75,7 +75,16 @@ func (mu *multiUseEntry) runConsumer(itera iterator.Producer[Value], done func(e
 			return iterator.Empty[Value]()
 		}
 		used = true
-		return itera
+		started := false
+		return func(yield iterator.Consumer[Value]) {
+			// the producer itself can also be started only once (cross iterates its argument repeatedly)
+			if started {
+				yield(nil, errors.New("copied iterator a can only be used once"))
+				return
+			}
+			started = true
+			itera(yield)
+		}
 	}))
 	value, err := mu.fu(st, nil)
 	if innerErr != nil {
